@@ -42,6 +42,8 @@ Artifact names with non-ASCII and non-BMP letters, versions with empty build num
 Every universe is written as a crumb before get_maven_dependencies is called (a crash, stack overflow or endless loop is reported with it). Forest::breadth_first_retain/breadth_first on random forests of integers with three stateful \
 predicates; MavenCoord/FoundDependency/DependencyScope print/parse on generated (separator-free) and separator-laden strings; free texts of 0..7 pieces against the documented form \
 `group:artifact[:type[:classifier]]:version`; FoundDependency::make_url (all handler-table types and others, time-stamped snapshot versions) against the repository layout; \
+stream snapshot-version: the version directory (to_snapshot_version / base_version) cut out of make_url for versions assembled from prefix, hyphen, date, dot, time, hyphen, build number with each part \
+also missing, too short, too long, spoiled by a non-digit (letters, separators, full-width / Arabic-Indic / Devanagari digits, blanks) or followed by a tail, judged by a matcher from the end of the text written from the repository layout; \
 MavenCoord::from_group_artifact_version; Display/Debug of Tree and FormattedTree with both palettes, read back into the tree. \
 A resolve case is non-trivial when the result has at least 2 dependencies; distinct by canonical text of the input.".into();
 
@@ -62,6 +64,7 @@ A resolve case is non-trivial when the result has at least 2 dependencies; disti
 	trees::cases(&mut r, &mut rng.fork(2), n_tree);
 	let n_coord = if ctx.thorough { 4000 } else { 700 };
 	coords::cases(&mut r, &mut rng.fork(3), n_coord);
+	coords::snapshot_cases(&mut r, &mut rng.fork(6), if ctx.thorough { 6000 } else { 1200 });
 	// the cyclic streams last, in a process of their own: whatever they do to that process, the streams above have been judged
 	cyclic_in_child(ctx, &mut r, n_resolve / 20)?;
 	// coqc spends far more time reading a resolve case than evaluating it: deal the cases round-robin
